@@ -77,7 +77,8 @@ impl RngCore for FixedRng {
 impl CryptoRng for FixedRng {}
 
 macro_rules! pipeline_probe {
-    ($name:ident, $m:ident) => {
+    ($name:ident, $m:ident, $feat:literal) => {
+        #[cfg(feature = $feat)]
         #[allow(deprecated)]
         #[inline(never)]
         pub fn $name(draw: &[u8; 64], msg: &[u8], out: &mut [u8; 4627], full: bool) -> Result<Trace, &'static str> {
@@ -98,13 +99,24 @@ macro_rules! pipeline_probe {
         }
     };
 }
-pipeline_probe!(pipeline_44, ml_dsa_44);
-pipeline_probe!(pipeline_65, ml_dsa_65);
-pipeline_probe!(pipeline_87, ml_dsa_87);
+pipeline_probe!(pipeline_44, ml_dsa_44, "ml-dsa-44");
+pipeline_probe!(pipeline_65, ml_dsa_65, "ml-dsa-65");
+pipeline_probe!(pipeline_87, ml_dsa_87, "ml-dsa-87");
 
 pub type PipelineFn = fn(&[u8; 64], &[u8], &mut [u8; 4627], bool) -> Result<Trace, &'static str>;
 
-pub const PIPELINES: [(&str, PipelineFn); 3] = [("ml-dsa-44", pipeline_44), ("ml-dsa-65", pipeline_65), ("ml-dsa-87", pipeline_87)];
+/// the pipelines of the parameter sets compiled into this build
+pub fn pipelines() -> Vec<(&'static str, PipelineFn)> {
+    #[allow(unused_mut)]
+    let mut v: Vec<(&'static str, PipelineFn)> = Vec::new();
+    #[cfg(feature = "ml-dsa-44")]
+    v.push(("ml-dsa-44", pipeline_44));
+    #[cfg(feature = "ml-dsa-65")]
+    v.push(("ml-dsa-65", pipeline_65));
+    #[cfg(feature = "ml-dsa-87")]
+    v.push(("ml-dsa-87", pipeline_87));
+    v
+}
 
 // ---------------------------------------------------------------------------------------------
 // kernels alone
